@@ -44,7 +44,13 @@ fn versions() -> Vec<(&'static str, Ver)> {
 }
 
 fn check(a: &Ver, b: &Ver) -> Result<(), String> {
-    let (a, b) = (a.clone(), b.clone());
+    check_seq(&[a.clone()], &[b.clone()])
+}
+
+/// each replica submits its versions one after the other (each update() is its own revision) and commits once
+fn check_seq(sa: &[Ver], sb: &[Ver]) -> Result<(), String> {
+    let (sa, sb) = (sa.to_vec(), sb.to_vec());
+    let (a, b) = (sa.last().unwrap().clone(), sb.last().unwrap().clone());
     let r = super::guarded(move || -> Result<(), String> {
         let mk = || -> Result<(Melda, Arc<RwLock<Box<dyn Adapter>>>), String> {
             let ad: Box<dyn Adapter> = Box::new(MemoryAdapter::new());
@@ -57,9 +63,13 @@ fn check(a: &Ver, b: &Ver) -> Result<(), String> {
         ra.commit(None).map_err(|e| e.to_string())?;
         rb.meld(&ra).map_err(|e| e.to_string())?;
         rb.refresh().map_err(|e| e.to_string())?;
-        ra.update(doc(&a.0, &a.1)).map_err(|e| e.to_string())?;
+        for v in &sa {
+            ra.update(doc(&v.0, &v.1)).map_err(|e| e.to_string())?;
+        }
         ra.commit(None).map_err(|e| e.to_string())?;
-        rb.update(doc(&b.0, &b.1)).map_err(|e| e.to_string())?;
+        for v in &sb {
+            rb.update(doc(&v.0, &v.1)).map_err(|e| e.to_string())?;
+        }
         rb.commit(None).map_err(|e| e.to_string())?;
         ra.meld(&rb).map_err(|e| e.to_string())?;
         ra.refresh().map_err(|e| e.to_string())?;
@@ -111,10 +121,33 @@ pub fn run(_thorough: bool, _seed: u64) -> Report {
             }
         }
     }
+    // two-step family: different first edits, then an edit that yields the SAME edit script on both sides (identical last patch)
+    for (name, sa, sb) in two_step() {
+        let key = format!("two-step:{}", name);
+        rep.case(&key, true);
+        if let Err(w) = check_seq(&sa, &sb) {
+            rep.fail(&format!("pair:{}", key), json!({"two_step": name}), &w);
+        }
+    }
     rep
 }
 
+fn two_step() -> Vec<(&'static str, Vec<Ver>, Vec<Ver>)> {
+    vec![
+        ("append-x|append-y;both-remove-first", vec![(vec!["k1", "k2", "k3", "x"], vec!["k4"]), (vec!["k2", "k3", "x"], vec!["k4"])], vec![(vec!["k1", "k2", "k3", "y"], vec!["k4"]), (vec!["k2", "k3", "y"], vec!["k4"])]),
+        ("prepend-x|prepend-y;both-remove-last", vec![(vec!["x", "k1", "k2", "k3"], vec!["k4"]), (vec!["x", "k1", "k2"], vec!["k4"])], vec![(vec!["y", "k1", "k2", "k3"], vec!["k4"]), (vec!["y", "k1", "k2"], vec!["k4"])]),
+        ("append-x|append-y;both-append-z", vec![(vec!["k1", "k2", "k3", "x"], vec!["k4"]), (vec!["k1", "k2", "k3", "x", "z"], vec!["k4"])], vec![(vec!["k1", "k2", "k3", "y"], vec!["k4"]), (vec!["k1", "k2", "k3", "y", "z"], vec!["k4"])]),
+        ("move-k1|append-y;both-remove-k2", vec![(vec!["k2", "k3"], vec!["k4", "k1"]), (vec!["k3"], vec!["k4", "k1"])], vec![(vec!["k1", "k2", "k3", "y"], vec!["k4"]), (vec!["k1", "k3", "y"], vec!["k4"])]),
+    ]
+}
+
 pub fn replay(case: &Value) -> Value {
+    if let Some(n) = case["input"]["two_step"].as_str() {
+        return match two_step().into_iter().find(|(k, _, _)| *k == n) {
+            Some((_, sa, sb)) => match check_seq(&sa, &sb) { Ok(()) => json!({"reproduced": false}), Err(w) => json!({"reproduced": true, "what": w}) },
+            None => json!({"reproduced": false, "error": "unknown two-step name"}),
+        };
+    }
     let vs = versions();
     let find = |n: &str| vs.iter().find(|(k, _)| *k == n).map(|(_, v)| v.clone());
     match (find(case["input"]["a"].as_str().unwrap_or("")), find(case["input"]["b"].as_str().unwrap_or(""))) {
